@@ -177,6 +177,8 @@ class Contract:
 def register(cls):
     inst = cls()
     inst.id = cls.__name__
+    if inst.id in REGISTRY and type(REGISTRY[inst.id]).__module__ != cls.__module__:
+        raise RuntimeError(f"two contracts are called {inst.id}")
     REGISTRY[inst.id] = inst
     return cls
 
